@@ -930,6 +930,13 @@ def sig_C08(ins, outs, extra=""):
             return "C08:fixed-point:dual-stack:idle-primary-IPv4-addresses-count-for-the-max-band-and-trim-the-IPv6-refill"
         if churn:
             return "C08:fixed-point:idle-addresses-spread-over-interfaces:refill-subtracts-them-interface-by-interface-trim-counts-them-all"
+    if _ipam_kind(ins) == 5 and code == 809:
+        # the pool loop on a node without pods keeps calling the cloud although min <= max and nothing fails
+        # (the model reproduces every round: c08_pool_churn_refuted is this behaviour as a theorem)
+        dual = len(ins) > 1 and int(ins[1]) != 0
+        if dual:
+            return "C08:fixed-point:dual-stack:idle-primary-IPv4-addresses-count-for-the-max-band-and-trim-the-IPv6-refill"
+        return "C08:fixed-point:idle-addresses-spread-over-interfaces:refill-subtracts-them-interface-by-interface-trim-counts-them-all"
     return "C08:kind%d:clause%d" % (_ipam_kind(ins), code)
 
 
@@ -944,6 +951,8 @@ def _ipam_nt(ins, outs):
     if k == 3:
         i = ins.index(-555) if -555 in ins else len(ins)
         return ins[:i] != [] and outs != [] and True
+    if k == 5:
+        return 55 in outs
     return 77 in outs
 
 
@@ -962,7 +971,7 @@ def nt_C08(ins, outs):
 
 
 def _dist_ipam(cases):
-    names = {1: "plan", 2: "trim", 3: "bind_pass", 4: "reconcile_history"}
+    names = {1: "plan", 2: "trim", 3: "bind_pass", 4: "reconcile_history", 5: "pool_loop_without_pods"}
     d = {"cases": len(cases), "kinds": {v: 0 for v in names.values()}, "reconcile_rounds": 0, "cloud_calls": 0, "failed_cloud_calls": 0,
          "rounds_with_error": 0, "update_conflicts": 0, "history_events": {}}
     ev = {1: "add_pod", 2: "delete_pod", 3: "runtime_report", 4: "reconcile", 5: "cloud_drift", 6: "controller_restart", 7: "advance_time", 8: "update_conflict", 9: "runtime_readable_toggle"}
@@ -983,6 +992,8 @@ def _dist_ipam(cases):
             except Exception:
                 pass
             d["reconcile_rounds"] += sum(1 for x in outs if x == 77)
+        if k == 5:
+            d["reconcile_rounds"] += sum(1 for x in outs if x == 55)
     return d
 
 
